@@ -133,6 +133,7 @@ type Sim struct {
 	locks   map[any]*lockState
 	condq   map[any][]*Task
 	step    int
+	onces map[*sync.Once]*onceState
 	// spin detection: the step at which simulated time last advanced, and yield sites since
 	instantAt   time.Duration
 	instantStep int
